@@ -292,7 +292,8 @@ def rule_c(ck, R):
                 else:
                     seen.add('stop')
                     cd = code_of(p.ret)
-                    hcode = [h2 for k2, (h2, pre2) in lmap.items() if fmt(k2) == 'rv.code']
+                    hcode = [h2 for k2, (h2, pre2) in lmap.items() if fmt(k2) == 'rv.code'] + \
+                            [sym.field_of_value(h2, 'code') for k2, (h2, pre2) in lmap.items() if fmt(k2) == 'rv']
                     inv_ok = loop_const_invariant(ps, 'rv.code', C(E['REG_ACCESS_SUCCESS']))
                     if not (cd == C(E['REG_ACCESS_SUCCESS']) or (hcode and cd == hcode[0] and inv_ok)):
                         bad = 'positive callback result does not stop with success'
